@@ -123,3 +123,93 @@ pub open spec fn th_alt_fits(asts: Seq<Ast>, n: int, reg: Seq<Ast>) -> bool
         th_alt_fits(asts, n - 1, reg) && th_fits(asts[n - 1], r1) && acc.states.len() + b.states.len() + 2 <= max_states()
     }
 }
+
+// ---- lemmas
+pub proof fn lemma_alt_fits_prefix(asts: Seq<Ast>, n: int, m: int, reg: Seq<Ast>)
+    requires 0 <= n <= m <= asts.len(), th_alt_fits(asts, m, reg)
+    ensures th_alt_fits(asts, n, reg)
+    decreases m - n
+{
+    if n < m {
+        if m >= 2 { lemma_alt_fits_prefix(asts, n, m - 1, reg); }
+        else { /* m == 1, n == 0 */ }
+    }
+}
+pub proof fn lemma_concat_fits_prefix(asts: Seq<Ast>, n: int, m: int, reg: Seq<Ast>)
+    requires 0 <= n <= m <= asts.len(), th_concat_fits(asts, m, reg)
+    ensures th_concat_fits(asts, n, reg)
+    decreases m - n
+{
+    if n < m { lemma_concat_fits_prefix(asts, n, m - 1, reg); }
+}
+
+pub proof fn lemma_leaf_view(id: int)
+    requires 0 <= id <= u32::MAX
+    ensures
+        v_leaf(id) == v_add_trans(NfaV { end: 1, ..v_push_state(v_new()) }, 0, CharClassID(id as u32), 1),
+        v_wf(v_leaf(id)), v_leaf(id).states.len() == 2,
+{
+    let a = v_leaf(id);
+    let b = v_add_trans(NfaV { end: 1, ..v_push_state(v_new()) }, 0, CharClassID(id as u32), 1);
+    assert(a.states.len() == 2 && b.states.len() == 2);
+    lemma_view_ext(a, b);
+}
+
+pub proof fn lemma_new_wf()
+    ensures v_wf(v_new()), v_new().states.len() == 1, v_is_empty(v_new())
+{
+}
+
+pub proof fn lemma_opt_wf(a: NfaV)
+    requires v_wf(a)
+    ensures v_wf(v_opt(a)), v_opt(a).states.len() == a.states.len() + 1
+{
+    let s = a.states.len() as int;
+    lemma_push_state_wf(a);
+    lemma_add_eps_wf(v_push_state(a), s, a.start);
+    lemma_add_eps_wf(v_add_eps(v_push_state(a), s, a.start), s, a.end);
+}
+pub proof fn lemma_plus_wf(a: NfaV)
+    requires v_wf(a)
+    ensures v_wf(v_plus(a)), v_plus(a).states.len() == a.states.len() + 2
+{
+    let s = a.states.len() as int;
+    lemma_push_state_wf(a);
+    lemma_add_eps_wf(v_push_state(a), s, a.start);
+    let v1 = v_add_eps(v_push_state(a), s, a.start);
+    lemma_push_state_wf(v1);
+    let e = s + 1;
+    lemma_add_eps_wf(v_push_state(v1), a.end, e);
+    lemma_add_eps_wf(v_add_eps(v_push_state(v1), a.end, e), a.end, a.start);
+}
+pub proof fn lemma_star_wf(a: NfaV)
+    requires v_wf(a)
+    ensures v_wf(v_star(a)), v_star(a).states.len() == a.states.len() + 2
+{
+    let s = a.states.len() as int;
+    lemma_push_state_wf(a);
+    lemma_add_eps_wf(v_push_state(a), s, a.start);
+    lemma_add_eps_wf(v_add_eps(v_push_state(a), s, a.start), s, a.end);
+    let v1 = v_add_eps(v_add_eps(v_push_state(a), s, a.start), s, a.end);
+    lemma_push_state_wf(v1);
+    let e = s + 1;
+    lemma_add_eps_wf(v_push_state(v1), a.end, e);
+    lemma_add_eps_wf(v_add_eps(v_push_state(v1), a.end, e), a.end, a.start);
+}
+pub proof fn lemma_concat_len(a: NfaV, b: NfaV)
+    requires v_wf(a), v_wf(b)
+    ensures v_concat(a, b).states.len() == (if v_is_empty(a) { b.states.len() } else { a.states.len() + b.states.len() }), v_concat(a, b).states.len() >= 1
+{
+    if !v_is_empty(a) {
+        let n = a.states.len() as int;
+        lemma_joined_wf(a, b);
+        lemma_shift_wf(b, n);
+    }
+}
+pub proof fn lemma_alt_len(a: NfaV, b: NfaV)
+    requires v_wf(a), v_wf(b)
+    ensures v_alt(a, b).states.len() == a.states.len() + b.states.len() + 2
+{
+    let n = a.states.len() as int;
+    lemma_shift_wf(b, n);
+}
